@@ -777,7 +777,7 @@ macro_rules! zapply {
             ZOp::SwapRemove(i) => { std::mem::forget($v.swap_remove(*i)); "some".to_string() }
             ZOp::Truncate(n) => { $v.truncate(*n); "unit".to_string() }
             ZOp::Clear => { $v.clear(); "unit".to_string() }
-            ZOp::Reserve(n) => { $v.reserve(*n); format!("cap_ok:{}", $v.capacity() >= $v.len() + *n) }
+            ZOp::Reserve(n) => { $v.reserve(*n); format!("cap_ok:{}", $v.len().checked_add(*n).map_or(false, |t| $v.capacity() >= t)) }
             ZOp::Drain(s, e, front, back) => {
                 let mut d = $v.drain((s.clone(), e.clone()));
                 let (mut f, mut b) = (0, 0);
@@ -813,17 +813,29 @@ macro_rules! zapply {
             }
             ZOp::CloneVec => { let c = $v.clone(); let n = c.len(); std::mem::forget(c); format!("len:{}", n) }
             ZOp::ShrinkToFit => { $v.shrink_to_fit(); format!("cap_ok:{}", $v.capacity() >= $v.len()) }
-            ZOp::ReserveExact(n) => { $v.reserve_exact(*n); format!("cap_ok:{}", $v.capacity() >= $v.len() + *n) }
+            ZOp::ReserveExact(n) => { $v.reserve_exact(*n); format!("cap_ok:{}", $v.len().checked_add(*n).map_or(false, |t| $v.capacity() >= t)) }
             ZOp::TryReserve(n, exact) => { let r = if *exact { $v.try_reserve_exact(*n).is_ok() } else { $v.try_reserve(*n).is_ok() }; format!("ok:{}", r) }
         }
     }};
 }
 
+/// a count next to the largest one a zero-sized vector of this length can still take
+fn zst_boundary(rng: &mut Rng, len: usize) -> usize {
+    let fits = usize::MAX - len;                       // len + fits == usize::MAX
+    match rng.below(4) {
+        0 => fits,
+        1 => fits.saturating_add(1),                   // the first count that cannot fit (if representable)
+        2 => fits.saturating_sub(1),
+        _ => usize::MAX - rng.usize_below(4),
+    }
+}
+
 fn gen_zop(rng: &mut Rng, len: usize) -> ZOp {
     match rng.below(26) {
         22 | 23 => ZOp::ShrinkToFit,
-        24 => ZOp::ReserveExact(if rng.chance(1, 4) { usize::MAX - rng.usize_below(3) } else { rng.usize_below(40) }),
-        25 => ZOp::TryReserve(if rng.chance(1, 2) { usize::MAX - rng.usize_below(4) } else { rng.usize_below(40) }, rng.chance(1, 2)),
+        // around the exact boundary len + n == usize::MAX (the last count that fits) as well as far from it
+        24 => ZOp::ReserveExact(if rng.chance(1, 4) { zst_boundary(rng, len) } else { rng.usize_below(40) }),
+        25 => ZOp::TryReserve(if rng.chance(1, 2) { zst_boundary(rng, len) } else { rng.usize_below(40) }, rng.chance(1, 2)),
         0 | 1 | 2 => ZOp::Push,
         3 => ZOp::Pop,
         4 => ZOp::Insert(pick_index(rng, len)),
@@ -831,7 +843,7 @@ fn gen_zop(rng: &mut Rng, len: usize) -> ZOp {
         6 => ZOp::SwapRemove(pick_index(rng, len)),
         7 => ZOp::Truncate(pick_index(rng, len)),
         8 => if rng.chance(1, 4) { ZOp::Clear } else { ZOp::Dedup },
-        9 => ZOp::Reserve(rng.usize_below(40)),
+        9 => ZOp::Reserve(if rng.chance(1, 6) { zst_boundary(rng, len) } else { rng.usize_below(40) }),
         10 => ZOp::Drain(pick_bound(rng, len), pick_bound(rng, len), rng.usize_below(3), rng.usize_below(3)),
         11 => ZOp::Retain(script(rng, len, true)),
         12 => ZOp::Resize(rng.usize_below(2 * len + 4)),
